@@ -1,0 +1,28 @@
+# -*- coding: utf-8 -*-
+
+"""
+Verification hooks, disabled unless the environment has DISCOPY_VERIF=1.
+
+A harness installs a callable as :code:`SINK`; the library calls
+:func:`emit` at a few observation points (after the state change, before the
+value is returned).  With the guard off :code:`ENABLED` is :code:`False` and
+nothing else in this module is ever executed.
+"""
+
+import os
+
+ENABLED = os.environ.get("DISCOPY_VERIF") == "1"
+SINK = None
+_DEPTH = [0]
+
+
+def emit(event, *args, **kwargs):
+    """ Hands an observation to the installed sink (re-entrant calls are
+    dropped so that a sink may itself use the library). """
+    if SINK is None or _DEPTH[0]:
+        return
+    _DEPTH[0] += 1
+    try:
+        SINK(event, *args, **kwargs)
+    finally:
+        _DEPTH[0] -= 1
